@@ -27,15 +27,18 @@ package db
 //@   ensures [stored] err == nil ==> stored(d, idOf(v)) && vaa.encodes(storedBytes(d, idOf(v)), v)
 //@   ensures [failed-unchanged] err != nil ==> storeUnchanged(d)
 //@   ensures [others] storeUnchangedExcept(d, idOf(v))
+//@   ensures [keeps-sequence-of-the-key] old(seqMatchesKey(d)) ==> seqMatchesKey(d)
 //@   modifies lib:db.store
 
 // ---------------------------------------------------------------- streams (C12)
 
 // The store's representation invariant: every stored value is a signed VAA whose sequence
-// number is the one in its key. StoreSignedVAA is the only writer and establishes it
-// ([stored]: the bytes under idOf(v) encode v). Environment: no emitter's sequence counter
-// has reached 2^64-1 (the gap scan counts up to the highest sequence with a uint64).
-//@ pred wfStore(d *Database) = forall id vaa.VAAID :: stored(d, id) ==> vaa.seqOf(storedBytes(d, id)) == id.Sequence && id.Sequence < 18446744073709551615
+// number is the one in its key. StoreSignedVAA is the only writer and is proved to preserve
+// it ([keeps-sequence-of-the-key]), so it holds for every store built from an empty one.
+// Environment: no emitter's sequence counter has reached 2^64-1 (the gap scan counts up to
+// the highest sequence with a uint64).
+//@ pred seqMatchesKey(d *Database) = forall id vaa.VAAID :: stored(d, id) ==> vaa.seqOf(storedBytes(d, id)) == id.Sequence
+//@ pred wfStore(d *Database) = seqMatchesKey(d) && (forall id vaa.VAAID :: stored(d, id) ==> id.Sequence < 18446744073709551615)
 // membership of one (emitter chain, emitter address, target chain) stream
 //@ pure streamId(p vaa.VAAID, s uint64) = struct("vaa.VAAID", p.EmitterChain, p.EmitterAddress, p.TargetChain, s)
 //@ pred inStream(d *Database, p vaa.VAAID, s uint64) = stored(d, streamId(p, s))
